@@ -109,6 +109,7 @@ func c01Run(cfgS, evS string) string {
 	subs := map[string]*c01Sub{}
 	var order []string
 	var recordings [][]byte
+	var arena []byte
 	collectRecording := func() {
 		files, _ := filepath.Glob(filepath.Join(dir, "*.flv"))
 		sort.Strings(files)
@@ -134,7 +135,13 @@ func c01Run(cfgS, evS string) string {
 			}
 		case "M":
 			if pub != nil {
-				p := unhx(f[3])
+				// one receive buffer reused for every message, as rtmp.PullSession does by default
+				raw := unhx(f[3])
+				if len(arena) < len(raw) {
+					arena = make([]byte, len(raw)+64)
+				}
+				p := arena[:len(raw)]
+				copy(p, raw)
 				var m base.RtmpMsg
 				m.Header.Csid = 4
 				m.Header.MsgTypeId = uint8(atoi(f[1]))
@@ -143,6 +150,11 @@ func c01Run(cfgS, evS string) string {
 				m.Header.MsgLen = uint32(len(p))
 				m.Payload = p
 				g.OnReadRtmpAvMsg(m)
+				// the caller may reuse its receive buffer (rtmp.PullSession does by default): nothing the group
+				// keeps or sends later may alias the payload
+				for i := range p {
+					p[i] = 0xEE
+				}
 			}
 		case "J":
 			key := f[1] + f[2]
